@@ -18,7 +18,7 @@ META = {
     "exhaustive": {"quick": True, "thorough": True},
     "floors": {
         "quick": {"subsets_checked": 2900, "parking_queries": 12000, "sequences_checked": 150, "sequence_generator_calls": 100, "accepted_subsets": 150, "rejected_subsets": 1500},
-        "thorough": {"subsets_checked": 15000, "parking_queries": 60000, "sequences_checked": 3000},
+        "thorough": {"subsets_checked": 15000, "parking_queries": 30000, "sequences_checked": 800},
     },
 }
 
